@@ -8,32 +8,68 @@ import math
 FACTORS = [0.3, 0.6, 0.9, 0.97, 1.02, 1.05, 1.15, 1.5, None]
 
 
-def apply(net, factors, run_free):
-    """run_free(net) runs the power flow without enforcement. Returns {gen index: factor} of the calibrated gens, or None."""
+def factors():
+    """strategy: the first generator is limited well below its unconstrained q, the others mostly just above theirs"""
+    from hypothesis import strategies as st
+    return st.tuples(st.sampled_from([0.3, 0.6, 0.9]),
+                     st.lists(st.sampled_from([1.005, 1.01, 1.02, 1.05, 1.15, 0.9, 1.5, None]), min_size=3, max_size=3)
+                     ).map(lambda t: [t[0]] + t[1])
+
+
+def apply(net, factors, run_free, run_enf=None):
+    """run_free(net) runs the power flow without enforcement, run_enf(net) with enforcement.
+    Stage 1: unconstrained run, the first PV gen gets the limit f_0 * q (f_0 < 1: binds in the first round).
+    Stage 2 (if run_enf is given): run with only that limit enforced; every other gen whose |q| grew gets its limit between
+    its unconstrained and its new value (inside the limit at first, violated once the first gen is limited: second round);
+    the remaining gens get f_i * q_free. Returns {gen index: factor (2.0 = stage-2 limit)} of the calibrated gens, or None."""
     if not factors or not len(net.gen):
         return None
     try:
         run_free(net)
     except Exception:
         return None
-    out = {}
-    k = 0
-    for idx in net.gen.index:
-        if not net.gen.at[idx, "in_service"] or bool(net.gen.at[idx, "slack"]):
-            continue
-        f = factors[k % len(factors)]
-        k += 1
-        qf = float(net.res_gen.at[idx, "q_mvar"])
-        if f is None or math.isnan(qf) or abs(qf) < 1e-6:
-            continue
+    gens = [idx for idx in net.gen.index if net.gen.at[idx, "in_service"] and not bool(net.gen.at[idx, "slack"])]
+    qfree = {idx: float(net.res_gen.at[idx, "q_mvar"]) for idx in gens}
+    gens = [i for i in gens if not math.isnan(qfree[i]) and abs(qfree[i]) >= 1e-6]
+    if not gens:
+        return None
+    if "min_q_mvar" not in net.gen.columns:
+        net.gen["min_q_mvar"] = float("nan")
+        net.gen["max_q_mvar"] = float("nan")
+
+    def setlim(idx, lim):
+        qf = qfree[idx]
         wide = round(3.0 * abs(qf) + 1e-3, 6)
         if qf > 0:
-            net.gen.at[idx, "max_q_mvar"] = round(f * qf, 6)
-            net.gen.at[idx, "min_q_mvar"] = -wide
+            net.gen.at[idx, "max_q_mvar"], net.gen.at[idx, "min_q_mvar"] = round(lim, 6), -wide
         else:
-            net.gen.at[idx, "min_q_mvar"] = round(f * qf, 6)
-            net.gen.at[idx, "max_q_mvar"] = wide
-        out[int(idx)] = f
+            net.gen.at[idx, "min_q_mvar"], net.gen.at[idx, "max_q_mvar"] = round(lim, 6), wide
+    out = {}
+    first = gens[0]
+    f0 = factors[0] if factors[0] is not None else 0.6
+    for idx in gens[1:]:                 # wide open for stage 2
+        setlim(idx, 3.0 * qfree[idx])
+    setlim(first, f0 * qfree[first])
+    out[int(first)] = f0
+    q2 = None
+    if run_enf is not None and len(gens) > 1:
+        try:
+            run_enf(net)
+            q2 = {idx: float(net.res_gen.at[idx, "q_mvar"]) for idx in gens}
+        except Exception:
+            q2 = None
+    for k, idx in enumerate(gens[1:], start=1):
+        f = factors[k % len(factors)]
+        qf = qfree[idx]
+        if q2 is not None and not math.isnan(q2[idx]) and q2[idx] * qf > 0 and abs(q2[idx]) > abs(qf) * (1 + 1e-3) + 1e-5 \
+                and f is not None and f >= 1.0:
+            setlim(idx, qf + 0.5 * (q2[idx] - qf))
+            out[int(idx)] = 2.0
+        elif f is None:
+            net.gen.at[idx, "min_q_mvar"], net.gen.at[idx, "max_q_mvar"] = float("nan"), float("nan")
+        else:
+            setlim(idx, f * qf)
+            out[int(idx)] = f
     return out
 
 
